@@ -8,6 +8,7 @@ CONSTANTS
   KF_NodeReq = FALSE
   LookupMode = "exact"
   KF_EndTest = FALSE
+  KF_WildHost = FALSE
   KF_WildNew = TRUE
   GenFlows <- FlowsB1
   GenTxns <- TxnsB
